@@ -14,7 +14,7 @@ LEVEL = "exploration"
 TECHNIQUE = "bounded exhaustive enumeration of codec layouts/values/orders against an independent whole-buffer integer oracle"
 RULE = ("int<->bytes: sizes 0..9 x (all values for size<=2, boundary alphabet above); single fields: every contiguous mask of "
         "width 1..72 at bit alignment 0..7 x offsets {0,1,5} x trailing bytes {0,2} x prior content {00,FF,A5} outside the field "
-        "x values (exhaustive up to the tier's width, alphabet above); 2 and 3 non-overlapping fields x all supply orders; blobs "
+        "x values (exhaustive up to the tier's width, alphabet above); 2 and 3 non-overlapping fields x all supply orders; split fields (two runs of bits with a hole, a second field living in the hole) x 4x4x5 run widths x 4 alignments; blobs "
         "b/w/dw x lengths 0..4 x offsets, alone and mixed with a bit field; 2 and 3 blobs of every kind combination plus a bit field in every supply order; layout entries spelled as lists and as tuples (every single-field case both ways, multi-field layouts mixed), blob kind strings as literals and built at run time. A case is non-trivial when the value or the prior "
         "content is non-zero; distinct = distinct (kind, layout, value, prior, order) tuples.")
 ASSUMPTIONS = [
@@ -220,6 +220,43 @@ def run_case(case, obs=None):
                 out.append(("decode_blobs", "layout %r order %r: blob %d decoded as %r" % (specs, order, i, res.get("k%d" % i))))
         if res.get("f") != 0xA5:
             out.append(("decode_blobs", "layout %r order %r: bit field decoded as %r" % (specs, order, res.get("f"))))
+    elif kind == "split":
+        # a field whose mask is two runs of bits with a hole between them, and a second field living in the hole (non-overlapping):
+        # values are given in the mask's own coordinates (mask >> lowest set bit)
+        _, lo_w, hole_w, hi_w, shift, offset, vsel, hsel, order, pat = case
+        total = lo_w + hole_w + hi_w
+        mask_u = (((1 << hi_w) - 1) << (lo_w + hole_w)) | ((1 << lo_w) - 1)      # unshifted split mask
+        hole_u = ((1 << hole_w) - 1) << lo_w
+        nbytes = (total + shift + 7) // 8
+        value = {0: 0, 1: mask_u, 2: 1, 3: 1 << (total - 1), 4: mask_u & 0xA5A5A5A5A5A5A5A5A5, 5: mask_u & 0x5A5A5A5A5A5A5A5A5A}[vsel]
+        hval = {0: 0, 1: (1 << hole_w) - 1, 2: 1}[hsel]
+        buflen = offset + nbytes + 1
+        prior_i = int.from_bytes(make_prior(buflen, PRIORS[pat], []), "big")
+        fieldbits = ((mask_u | hole_u) << shift) << (8 * (buflen - offset - nbytes))
+        prior_i &= ~fieldbits
+        pos = 8 * (buflen - offset - nbytes) + shift
+        exp_i = prior_i | (value << pos) | ((hval << lo_w) << pos)
+        exp = exp_i.to_bytes(buflen, "big")
+        # (a mask spans as many bytes as its own value needs, counted from its offset: the hole field starts further right)
+        hole_nbytes = ((hole_u << shift).bit_length() + 7) // 8
+        lay = {"s": [mask_u << shift, offset], "h": [hole_u << shift, offset + nbytes - hole_nbytes]}
+        data = {"s": value, "h": hval}
+        keys = ["s", "h"] if order == 0 else ["h", "s"]
+        buf = bytearray(prior_i.to_bytes(buflen, "big"))
+        try:
+            cv.encode_dict({k: data[k] for k in keys}, lay, buf)
+            res = {}
+            cv.decode_bits(bytearray(exp), {k: lay[k] for k in keys}, res)
+        except Exception as e:   # noqa: BLE001
+            return [("split_raises", "split mask %#x with a field in its hole: %s: %s" % (mask_u << shift, type(e).__name__, e))]
+        if obs is not None:
+            obs.append(bytes(buf))
+        if bytes(buf) != exp:
+            out.append(("encode_split", "mask %#x (hole field %#x) off=%d values %#x/%#x -> %s expected %s"
+                        % (mask_u << shift, hole_u << shift, offset, value, hval, bytes(buf).hex(), exp.hex())))
+        if res.get("s") != value or res.get("h") != hval:
+            out.append(("decode_split", "mask %#x (hole field %#x) off=%d of %s -> %r expected s=%#x h=%#x"
+                        % (mask_u << shift, hole_u << shift, offset, exp.hex(), res, value, hval)))
     else:
         raise ValueError(kind)
     return out
@@ -231,7 +268,7 @@ def replay(case):
 
 # ---------------------------------------------------------------------------------
 def partitions(tier):
-    parts = [["int"], ["blob"], ["blobs", 2], ["blobs", 3]]
+    parts = [["int"], ["blob"], ["blobs", 2], ["blobs", 3], ["split"]]
     for w in range(1, 73):
         parts.append(["single", w])
     widths2 = [1, 3, 8, 12, 16, 24, 32, 40, 64]
@@ -291,6 +328,16 @@ def gen(part, tier):
                             for values in itertools.product(*[_vals2(w) for w in (w1, w2, w3)]):
                                 for order in itertools.permutations(range(3)):
                                     yield ("multi", flds, order, "A5", values, buflen)
+    elif kind == "split":
+        for lo_w in (1, 2, 4, 8):
+            for hole_w in (1, 2, 8, 9):
+                for hi_w in (1, 2, 4, 8, 16):
+                    for shift in (0, 3, 4, 7):
+                        for offset in (0, 2):
+                            for vsel in range(6):
+                                for hsel in range(3):
+                                    for order in (0, 1):
+                                        yield ("split", lo_w, hole_w, hi_w, shift, offset, vsel, hsel, order, "FF" if (vsel + hsel) % 2 else "00")
     elif kind == "blobs":
         nb = part[1]
         kinds = [("b", 1), ("b", 3), ("w", 1), ("w", 2), ("dw", 1), ("dw", 2)]
